@@ -215,6 +215,9 @@ func analyse(ids []string, repo, cfg, tier string) (rs map[string]*rep.Report, e
 		for _, n := range eng.AliasNotes() {
 			r.Assumption("renamed identifier recognised by shape [" + cfg + "]: " + n)
 		}
+		if len(p.Dead) > 0 {
+			r.Assumption("unexported functions that nothing in the program can call (no static call, no value use, no dynamic dispatch) are not analysed [" + cfg + "]: " + strings.Join(p.Dead, ", "))
+		}
 		if len(p.Seams) > 0 {
 			var ss []string
 			for g, f := range p.Seams {
